@@ -51,24 +51,79 @@ def _succs(t):
     return []
 
 
-def _block_known(body_j, blk):
-    """{local: (variant, adt)} statically known at the end of the block's statements"""
-    known = {}
-    for st in blk["stmts"]:
+TRY_BRANCH = {"Ok": "Continue", "Some": "Continue", "Err": "Break", "None": "Break", "Continue": "Continue", "Break": "Break"}
+
+
+def _payload_place(place):
+    """local L when the place is `(L as Variant).0` / `L.0` (the single payload of an enum value), else None"""
+    pr = [e for e in place["proj"] if e["p"] != "downcast"]
+    if len(pr) == 1 and pr[0]["p"] == "field" and int(pr[0]["i"]) == 0 and len(place["proj"]) <= 2:
+        return place["local"]
+    return None
+
+
+def _track(stmts, known, inner):
+    """update {local: (variant, adt)} and {local: (variant, adt) of its single payload} over straight-line statements"""
+    for st in stmts:
         if st["s"] != "assign":
             continue
         l = st["place"]["local"]
         if st["place"]["proj"]:
             known.pop(l, None)
+            inner.pop(l, None)
             continue
         rv = st["rv"]
         if rv["r"] == "aggregate" and rv["kind"]["a"] == "adt" and rv["kind"].get("variant") and rv["kind"].get("adt"):
             known[l] = (rv["kind"]["variant"], rv["kind"]["adt"])
+            inner.pop(l, None)
+            ops = rv.get("ops", [])
+            if len(ops) == 1 and ops[0]["o"] in ("move", "copy") and not ops[0]["place"]["proj"] and ops[0]["place"]["local"] in known:
+                inner[l] = known[ops[0]["place"]["local"]]      # Poll::Ready(r), Some(r): remember what is inside
         elif rv["r"] == "use" and rv["op"]["o"] in ("move", "copy") and not rv["op"]["place"]["proj"] and rv["op"]["place"]["local"] in known:
-            known[l] = known[rv["op"]["place"]["local"]]
+            src = rv["op"]["place"]["local"]
+            known[l] = known[src]
+            if src in inner:
+                inner[l] = inner[src]
+            else:
+                inner.pop(l, None)
+        elif rv["r"] == "use" and rv["op"]["o"] in ("move", "copy") and _payload_place(rv["op"]["place"]) in inner:
+            known[l] = inner[_payload_place(rv["op"]["place"])]
+            inner.pop(l, None)
         else:
             known.pop(l, None)
-    return known
+            inner.pop(l, None)
+
+
+def _track_call(body_j, t, known, inner):
+    """effect of a call terminator on the tracked facts: FromResidual yields the failure variant, Try::branch maps
+    Ok/Some -> Continue and Err/None -> Break"""
+    if t["dest"]["proj"]:
+        return
+    dl = t["dest"]["local"]
+    f = t["func"]
+    fn = f["c"].get("fn") if f["o"] == "const" else None
+    new = None
+    if fn == "std::ops::FromResidual::from_residual":
+        ty = body_j["locals"][dl]["ty"]
+        if ty.get("adt") in FAIL_VARIANT:
+            new = (FAIL_VARIANT[ty["adt"]], ty["adt"])
+    elif fn == "std::ops::Try::branch" and t["args"]:
+        a = t["args"][0]
+        if a["o"] in ("move", "copy") and not a["place"]["proj"] and a["place"]["local"] in known:
+            v = known[a["place"]["local"]][0]
+            if v in TRY_BRANCH:
+                new = (TRY_BRANCH[v], "std::ops::ControlFlow")
+    known.pop(dl, None)
+    inner.pop(dl, None)
+    if new:
+        known[dl] = new
+
+
+def _block_known(body_j, blk):
+    """({local: (variant, adt)}, {local: payload facts}) statically known at the end of the block's statements"""
+    known, inner = {}, {}
+    _track(blk["stmts"], known, inner)
+    return known, inner
 
 
 def thread_body(program, body_j):
@@ -89,70 +144,64 @@ def thread_body(program, body_j):
         if blk["cleanup"] in (True, "true"):
             continue
         t = blk["term"]
-        known = _block_known(body_j, blk)
-        if t["t"] == "goto":
-            start = t["target"]
-        elif t["t"] == "drop":
+        known, inner0 = _block_known(body_j, blk)
+        if t["t"] in ("goto", "drop", "false_edge"):
             start = t["target"]
         elif t["t"] == "call" and t.get("target") is not None:
             start = t["target"]
-            f = t["func"]
-            if not t["dest"]["proj"]:
-                dl = t["dest"]["local"]
-                known.pop(dl, None)
-                if f["o"] == "const" and f["c"].get("fn") == "std::ops::FromResidual::from_residual":
-                    ty = body_j["locals"][dl]["ty"]
-                    if ty.get("adt") in FAIL_VARIANT:
-                        known[dl] = (FAIL_VARIANT[ty["adt"]], ty["adt"])
+            _track_call(body_j, t, known, inner0)
         else:
             continue
-        if not known:
+        if not known and not inner0:
             continue
         # walk forward through straight-line blocks, carrying the known variants through moves
         cur = start
         chain = []
         kn = dict(known)
-        hit = None
-        for _ in range(12):
+        inn = dict(inner0)
+        last = None     # (number of chain blocks to keep, arm to continue at) after the last switch that could be decided
+        for _ in range(48):
             if cur is None or cur >= len(blocks) or cur == i or cur in chain:
                 break
             if cur in switches:
                 local, sw = switches[cur]
-                if local in kn:
-                    hit = (cur, local, sw)
-                break
+                if local not in kn:
+                    break
+                var, adt = kn[local]
+                vals = _variant_values(program, adt)
+                if not vals or var not in vals:
+                    break
+                dv = vals[var]
+                arm = None
+                for v, tb in sw["targets"]:
+                    if int(v) == dv:
+                        arm = tb
+                if arm is None:
+                    arm = sw["otherwise"]
+                # the switch block itself (`_d = discriminant(P); switchInt(_d)`) is skipped, not copied: several decided
+                # switches in a row are threaded in one go (Err -> Poll::Ready(Err) -> `?` -> Break)
+                last = (len(chain), arm)
+                cur = arm
+                continue
             b2 = blocks[cur]
             k2 = b2["term"]["t"]
-            if k2 not in ("goto", "drop"):
+            is_try = (k2 == "call" and b2["term"].get("target") is not None and b2["term"]["func"]["o"] == "const"
+                      and b2["term"]["func"]["c"].get("fn") in ("std::ops::Try::branch", "std::ops::FromResidual::from_residual"))
+            if k2 not in ("goto", "drop", "false_edge") and not is_try:
                 break
-            for st in b2["stmts"]:
-                if st["s"] != "assign":
-                    continue
-                l = st["place"]["local"]
-                rv = st["rv"]
-                if not st["place"]["proj"] and rv["r"] == "use" and rv["op"]["o"] in ("move", "copy") and not rv["op"]["place"]["proj"] and rv["op"]["place"]["local"] in kn:
-                    kn[l] = kn[rv["op"]["place"]["local"]]
-                else:
-                    kn.pop(l, None)
+            _track(b2["stmts"], kn, inn)
+            if is_try:
+                _track_call(body_j, b2["term"], kn, inn)
+            if not kn and not inn:
+                break
             chain.append(cur)
             cur = b2["term"]["target"]
-        if not hit:
+        if last is None:
             continue
-        sblock, local, sw = hit
-        var, adt = kn[local]
-        vals = _variant_values(program, adt)
-        if not vals or var not in vals:
-            continue
-        dv = vals[var]
-        tgt = None
-        for v, tb in sw["targets"]:
-            if int(v) == dv:
-                tgt = tb
-        if tgt is None:
-            tgt = sw["otherwise"]
+        keep, tgt = last
         # duplicate the straight-line chain for this path and send it to the arm of the known variant
         prev_term = t
-        for cb in chain:
+        for cb in chain[:keep]:
             nb = copy.deepcopy(blocks[cb])
             blocks.append(nb)
             prev_term["target"] = len(blocks) - 1
